@@ -346,6 +346,10 @@ func tcpPair() (*net.TCPConn, *net.TCPConn) {
 	r := <-ch
 	hmust(r.err)
 	a.SetNoDelay(true)
+	// close with RST instead of FIN/TIME_WAIT: thousands of short-lived loopback connections per run must not
+	// exhaust the ephemeral port range (both ends are only closed after the reader has finished)
+	a.SetLinger(0)
+	r.c.SetLinger(0)
 	return a, r.c
 }
 
@@ -712,7 +716,9 @@ func runConc(c *caseIn, out *caseOut) {
 		}(g)
 	}
 	close(start)
+	alldone := make(chan struct{})
 	go func() {
+		defer close(alldone)
 		for range groups {
 			<-wdone
 		}
@@ -726,6 +732,7 @@ func runConc(c *caseIn, out *caseOut) {
 	}
 	b.Close()
 	a.Close()
+	<-alldone // no writer goroutine survives the case
 	out.Term, out.Final, out.Broken = rr.term, rr.final, rr.broken
 	got := bytes.Join(rr.reads, nil)
 	out.WireLen = len(got)
